@@ -219,9 +219,10 @@ def finish_kwargs(ctx: core.Ctx, tier: str) -> dict:
     nv = len(variants())
     return {
         "rule": (
-            f"Sources assembled from {nv} piece variants: 9 texts (whitespace runs of all six ASCII whitespace "
-            "characters, whitespace-only, markup-like fragments), output, echo, raw, comment (incl. nested), doc, "
-            "inline comment, liquid tag, {# #} comment, each with every left/right hyphen combination on its first "
+            f"Sources assembled from {nv} piece variants: 11 texts (whitespace runs of all six ASCII whitespace "
+            "characters and of non-ASCII whitespace str.isspace() accepts, whitespace-only, markup-like fragments), "
+            "output, echo, raw, comment (incl. nested and with '#' inside), doc, inline comment, liquid tag, a liquid "
+            "tag holding a comment line, {# #} comment, each with every left/right hyphen combination on its first "
             "and last delimiter and, for raw/comment/doc, on the inner delimiters too. "
             + ("All sequences of <= 2 pieces, every 60th of length 3" if tier == "quick" else "All sequences of <= 3 pieces")
             + " plus random sequences of 3-8 pieces; output must equal the constructive reference (text verbatim, "
